@@ -22,9 +22,11 @@ def main():
     bugs = tempfile.mkdtemp(prefix="c18cli-")
     sys.argv = ["hephaestus.py", "--bugs", bugs, "--name", "s", "--language", lang, "--iterations", str(n), "--dry-run",
                 "--batch", "10", "-S"] + flags
+    import faulthandler
     import random
+    faulthandler.register(signal.SIGUSR1, all_threads=True)       # kill -USR1 <pid> prints where a slow session is
     random.seed(seed)
-    out = dict(language=lang, flags=flags, programs=0, failures=[])
+    out = dict(language=lang, flags=flags, programs=0, failures=[], over_limit=[], limit_s=LIMIT)
     try:
         import hephaestus as H
         from src import utils
@@ -32,13 +34,17 @@ def main():
         H.pre_process_args(H.cli_args)
         devnull = open(os.devnull, "w")
         pid = 1
-        while pid <= n:
+        stop = False
+        while pid <= n and not stop:
             utils.random.reset_word_pool()
             tmpdir = tempfile.mkdtemp(prefix="c18cli-b-")
             try:
                 for _ in range(min(10, n - pid + 1)):
                     sd = (seed * 1000003 + pid) % (2 ** 31)
                     utils.random.r.seed(sd)
+                    if os.environ.get("C18CLI_PROGRESS"):
+                        sys.stderr.write("program %d seed %d\n" % (pid, sd))
+                        sys.stderr.flush()
                     packages = (utils.random.word(), utils.random.word())
                     try:
                         old = sys.stdout
@@ -50,7 +56,14 @@ def main():
                         finally:
                             signal.alarm(0)
                             sys.stdout = old
-                        if res.failed:
+                        if res.failed and "WorkLimit: program not finished" in str(res.stats.get("error")):
+                            # slow, not failed: the deep copies of type constructors make some programs take minutes; that is
+                            # reported as a statistic (a limit on wall time is no verdict about termination)
+                            out["over_limit"].append(dict(pid=pid, seed=sd))
+                            # the interrupt may have hit shared type objects in the middle of an update: this process generates
+                            # nothing more
+                            stop = True
+                        elif res.failed:
                             out["failures"].append(dict(pid=pid, seed=sd, error=str(res.stats.get("error"))[-1500:]))
                     except BaseException as e:      # noqa: BLE001  (gen_program catches Exception itself)
                         out["failures"].append(dict(pid=pid, seed=sd, error="%s escaped gen_program: %s" % (type(e).__name__, str(e)[:300])))
@@ -58,6 +71,8 @@ def main():
                             raise
                     out["programs"] += 1
                     pid += 1
+                    if stop:
+                        break
             finally:
                 shutil.rmtree(tmpdir, ignore_errors=True)
     finally:
@@ -65,7 +80,7 @@ def main():
     print("C18CLI " + json.dumps(out))
 
 
-LIMIT = int(os.environ.get("C18CLI_LIMIT", "150"))      # seconds of wall time per program (a program normally takes about one)
+LIMIT = int(os.environ.get("C18CLI_LIMIT", "40"))      # seconds of wall time per program (a program normally takes about one)
 
 
 class WorkLimit(Exception):
